@@ -101,7 +101,7 @@ package topics
 // iterate reports exactly the non-empty entries of the subtree, each at most once (soundness and the bound, for the whole
 // subtree); completeness one level at a time: the node itself if it holds a message, and every child is iterated.
 //@ func (*Node).iterate(f NodeIterator)
-//@   requires n != nil && n.#tree != nil && tt_wf(n.#tree)
+//@   requires n != nil && n.#tree != nil && tt_wf(n.#tree) && f != nil
 //@   ensures forall r *Node :: {#hits[r]} #hits[r] >= old(#hits)[r] && #hits[r] <= old(#hits)[r] + 1
 //@   ensures forall r *Node :: {#hits[r]} #hits[r] > old(#hits)[r] ==> tt_in(n.#tree, r) && len(r.Buf) > 0 && kpre(n.#key, r.#key)
 //@   ensures len(n.Buf) > 0 ==> #hits[n] == old(#hits)[n] + 1
@@ -109,6 +109,7 @@ package topics
 //@   ensures forall r *Node :: {#walked[r]} #walked[r] >= old(#walked)[r]
 //@   modifies *, except(allfields(*Node)), except(allmaps(Node.Children)), except(allfields(*tree)), except(heap(K_sync_RWMutex)), except(heap(E_byte)), newrows(bytes), #hits, #iterCalls, #walked
 //@ loop (*Node).iterate#1
+//@   invariant f != nil
 //@   invariant n != nil && n.#tree != nil && tt_wf(n.#tree)
 //@   invariant forall r *Node :: {#walked[r]} #walked[r] >= old(#walked)[r]
 //@   invariant forall kk string :: {seen(kk)} seen(kk) ==> #walked[n.Children[kk]] >= old(#walked)[n.Children[kk]] + 1
@@ -269,7 +270,7 @@ package topics
 //@   set #walked := update(#walked, t.root, #walked[t.root] + 1)
 
 //@ func (*tree).Iterate(f NodeIterator)
-//@   requires ttree_inv(t) && unlocked(t.mtx)
+//@   requires ttree_inv(t) && unlocked(t.mtx) && f != nil
 //@   ensures forall r *Node :: {#hits[r]} #hits[r] >= old(#hits)[r] && #hits[r] <= old(#hits)[r] + 1
 //@   ensures forall r *Node :: {#hits[r]} #hits[r] > old(#hits)[r] ==> tt_in(t.root, r) && len(r.Buf) > 0
 //@   ensures #walked[t.root] >= old(#walked)[t.root] + 1
